@@ -112,6 +112,37 @@ def props_cf_penalty(E, res):
 _build_methods = build
 
 
+# ---- State::repay_debts: the fee-debt gate used by withdrawals, pre-commits and recovery declarations ------------------
+
+def run_repay_gate(E):
+    from .miner_common import mk_miner_state
+    rt, rtref = new_rt(E)
+    pre = mk_miner_state(E, 0, with_info=False)
+    bal = z3.Int('balance')
+    E.ctx.assume(bal >= 0)
+    cell = Cell(pre['st'], 'st')
+    E.ctx.env.update(dict(bal=bal, cell=cell))
+    fn = find_fn(E, MINER, 'repay_debts', 'state')
+    return E.run_function(fn, [RefV(cell, (), True), RefV(Cell(BigV(bal), 'b'), ())]), rt
+
+
+def props_repay_gate(E, res):
+    from .miner_common import ledgers
+    env = res.ctx.env
+    pre = env['pre']
+    if res.kind != 'return':
+        return [('no panic (%s)' % str(res.info)[:60], False)]
+    led = ledgers(E, env['cell'].value)
+    unlocked = env['bal'] - pre['lf'] - pre['pcd'] - pre['ip']
+    if is_err(res.value):
+        return [('the gate refuses exactly when the unlocked balance cannot cover the fee debt (or the miner is insolvent), leaving the debt in place',
+                 z3.And(z3.Or(unlocked < pre['fd'], unlocked < 0), led['fd'] == pre['fd']))]
+    out = big(E, res.value.fields[('Ok', 0)])
+    return [('the gate passes only when the unlocked balance covers the whole fee debt', unlocked >= pre['fd']),
+            ('the whole debt is handed over for burning and cleared', z3.And(out == pre['fd'], led['fd'] == 0)),
+            ('the other ledgers are untouched', z3.And(led['ip'] == pre['ip'], led['pcd'] == pre['pcd'], led['lf'] == pre['lf']))]
+
+
 def build(tier):  # noqa: F811
     O = _build_methods(tier)
     O.append(Obligation('monies.pledge_penalty_for_termination', run_term_fee, props_term_fee,
@@ -126,4 +157,7 @@ def build(tier):  # noqa: F811
                         descr='consensus fault penalty and reporter share formulas', bounds='reward unbounded', max_paths=100))
     from . import miner_formulas
     O += miner_formulas.build_fees(tier)
+    O.append(Obligation('miner.State::repay_debts', run_repay_gate, props_repay_gate,
+                        descr='fee-debt gate (withdrawals, pre-commits, recovery declarations): passes only by repaying the whole debt out of unlocked balance, otherwise refuses and keeps the debt',
+                        bounds='all ledgers and the balance symbolic', max_paths=200, expect_ok=True))
     return O
